@@ -114,6 +114,99 @@ def explore_case(job):
     return n_exec, n_faulty, viols
 
 
+def mqtt_case(job) -> list:
+    """The same statement over the library's own MQTT transport: a publish of a released command fails with one of the
+    broker client's error classes (at QoS 0 and QoS 1 = ack flag set): reported, kept, written at a later wake, once."""
+    from unittest.mock import patch
+
+    from aiomqtt import MqttCodeError, MqttError
+    from aiomysensors.gateway import Gateway
+    from aiomysensors.transport.mqtt import MQTTClient
+
+    from ..mqttfake import FakeClient
+    from ..vloop import VLoop
+
+    version, errname, fail_index = job
+    err = {"MqttError": MqttError("Operation timed out"), "MqttCodeError": MqttCodeError(4, "Could not publish message")}[errname]
+    viols = []
+
+    def bad(k, what):
+        viols.append((f"C08|mqtt-{k}", f"[{version}] MQTT transport, publish #{fail_index} of the release fails with {errname}: {what}", {"mqtt": list(job)}))
+
+    loop = VLoop()
+    loop.enter()
+    p = patch("aiomysensors.transport.mqtt.AsyncioClient", FakeClient)
+    p.start()
+    try:
+        FakeClient.instances.clear()
+        FakeClient.plan = {}
+        FakeClient.suspend = set()
+        t = MQTTClient("b", 1883, in_prefix="i", out_prefix="o")
+
+        def run(coro):
+            task = loop.create_task(coro)
+            loop.run_ready()
+            if not task.done():
+                task.cancel()
+                loop.run_ready()
+                return ("hang", None)
+            if task.cancelled():
+                return ("cancelled", None)
+            return ("raise", task.exception()) if task.exception() is not None else ("ok", task.result())
+
+        run(t.connect())
+        fake = FakeClient.instances[-1]
+        gw = Gateway(t)
+        gw.protocol_version = version
+        wt = R.wake_type(version)
+        agen = [gw.listen()]
+
+        def step(line):
+            f = line.split(";", 5)
+            fake.deliver("i/" + "/".join(f[:5]), f[5].encode())
+            loop.run_ready()
+            k, v = run(agen[0].__anext__())
+            if k != "ok":
+                agen[0] = gw.listen()
+            return k, v
+
+        for line in ("1;255;0;0;17;2.0", "1;3;0;0;3;", f"1;255;3;0;{wt};0"):
+            step(line)
+        cmds = [Message(1, 3, 1, 1, 2, "acked"), Message(1, 3, 1, 0, 3, "plain"), Message(1, 255, 3, 1, 13, "")]
+        for m in cmds:
+            run(gw.send(m))
+        if fake.published:
+            bad("written-early", f"published before the wake: {fake.published}")
+        # publishes of the first wake: the fail_index-th one fails
+        count = {"n": 0}
+        real_publish = fake.publish
+
+        async def publish(topic, payload=None, qos=0, retain=False, **kw):
+            i = count["n"]
+            count["n"] += 1
+            if i == fail_index:
+                raise err
+            return await real_publish(topic, payload=payload, qos=qos, retain=retain, **kw)
+
+        fake.publish = publish
+        k, v = step(f"1;255;3;0;{wt};0")
+        failed = count["n"] > fail_index
+        if failed and not (k == "raise" and isinstance(v, AIOMySensorsError)):
+            bad("failure-not-reported", f"the wake gave {k} {v!r}")
+        fake.publish = real_publish
+        step(f"1;255;3;0;{wt};0")
+        step(f"1;255;3;0;{wt};0")
+        topics = [x[0] for x in fake.published]
+        for m in cmds:
+            topic = f"o/{m.node_id}/{m.child_id}/{m.command}/{m.ack}/{m.message_type}"
+            if topics.count(topic) != 1:
+                bad("lost" if topic not in topics else "written-again", f"command {topic} ({m.payload!r}) was published {topics.count(topic)} times over three wakes: {topics}")
+    finally:
+        p.stop()
+        loop.shutdown()
+    return viols
+
+
 def race_pass(ctx: core.Ctx):
     """Write faults while the application sends concurrently: reuses the schedule explorer and scenario of C09
     with one failing flush write (every schedule with <= 2 early firings)."""
@@ -160,11 +253,14 @@ def run(ctx: core.Ctx) -> core.Report:
     viols = [core.Violation(k, w, rep) for r in res for k, w, rep in r[2]]
     nrace, rv = race_pass(ctx)
     viols += rv
+    mjobs = [(v, e, i) for v in versions for e in ("MqttError", "MqttCodeError") for i in (0, 1, 2)]
+    for r in core.pmap(mqtt_case, mjobs, ctx.workers, chunksize=1):
+        viols += [core.Violation(k, w, rep) for k, w, rep in r]
     n_exec += nrace
     cov = {
         "evaluations": n_exec,
         "distinct_nontrivial": n_faulty,
-        "rule": "for every non-empty subset (size <= 4) of 5 commands (4 set commands over 2 nodes + 1 internal command) x every sequence of 1-3 wakes x every ok/fail assignment to the transport write attempts those wakes make (a tree: later attempts depend on earlier outcomes), (and 5 sequences in which the sleeping node requests the value of a parked command before or after its wake, and 5 sequences in which the gateway reports another 2.x release between the wakes), followed by one fault-free wake of each node; plus 3 send-during-flush scenarios with one failing write (every schedule with <= 2 early firings); each execution is distinct; non-trivial = at least one write fails",
+        "rule": "for every non-empty subset (size <= 4) of 5 commands (4 set commands over 2 nodes + 1 internal command) x every sequence of 1-3 wakes x every ok/fail assignment to the transport write attempts those wakes make (a tree: later attempts depend on earlier outcomes), (and 5 sequences in which the sleeping node requests the value of a parked command before or after its wake, and 5 sequences in which the gateway reports another 2.x release between the wakes), followed by one fault-free wake of each node; plus the library's MQTT transport with a publish (QoS 0 / 1) failing with either broker-client error class at each position of a release; plus 3 send-during-flush scenarios with one failing write (every schedule with <= 2 early firings); each execution is distinct; non-trivial = at least one write fails",
         "exhaustive": True,
         "bounds": {"versions": versions, "subsets": len(subsets), "wake_sequences": len(wake_seqs)},
         "samples": [{"version": jobs[i][0], "cmds": jobs[i][1], "wakes": jobs[i][2]} for i in (ctx.seed % len(jobs), len(jobs) - 1)],
@@ -173,6 +269,9 @@ def run(ctx: core.Ctx) -> core.Report:
 
 
 def replay(data: dict) -> dict:
+    if "mqtt" in data:
+        v = mqtt_case(tuple(data["mqtt"]))
+        return {"violated": bool(v), "violations": [{"key": k, "what": w} for k, w, _ in v]}
     if data.get("race"):
         from .. import explore
         from . import c09
